@@ -182,10 +182,21 @@ def _body(shard, *choices):
             elif c == 10:
                 if not ref.inputs:
                     return False
-                if kind == "combine_latest_on0" and 0 in ref.inputs:
-                    return False
+                before = snapshot_links()
                 try:
                     J.destroy()
+                except RuntimeError:
+                    # documented refusal: the only emit_on input cannot be removed.  destroy() removes the
+                    # inputs one after the other, so the inputs before it may be gone - but every
+                    # remaining edge must still be consistent at both ends
+                    if not (kind == "combine_latest_on0" and 0 in ref.inputs):
+                        vd.add("destroy-raised@%s" % kind)
+                    for i in list(ref.inputs):
+                        if not any(u is s[i] for u in J.upstreams):
+                            ref.disconnect(i)
+                    if not links_ok():
+                        vd.add("failed-edit-changed-links@%s" % kind)
+                    return True
                 except Exception:
                     vd.add("destroy-raised@%s" % kind)
                     return True
